@@ -747,3 +747,28 @@ func shortFunc(f *types.Func) string {
 
 // ShortFunc renders a types.Func without the module prefix.
 func ShortFunc(f *types.Func) string { return shortFunc(f) }
+
+// ReturnOperand resolves result i of a return instruction. go/ssa spills the results of functions
+// that defer closures through result cells (`*t = v; rundefers; r = *t; return r`); the value stored
+// last in the returning block is returned instead of the load.
+func ReturnOperand(ret *ssa.Return, i int) ssa.Value {
+	if i >= len(ret.Results) {
+		return nil
+	}
+	v := ret.Results[i]
+	u, ok := v.(*ssa.UnOp)
+	if !ok || u.Op != token.MUL {
+		return v
+	}
+	cell, ok := u.X.(*ssa.Alloc)
+	if !ok {
+		return v
+	}
+	instrs := ret.Block().Instrs
+	for k := len(instrs) - 1; k >= 0; k-- {
+		if st, ok := instrs[k].(*ssa.Store); ok && st.Addr == cell {
+			return st.Val
+		}
+	}
+	return v
+}
